@@ -1036,6 +1036,12 @@ class FuncAnalysis:
             else:
                 kws.append(T.kw(k.arg, self.ev(k.value)))
         t = T.call(f, args, kws)
+        # calls that consume state (next(it), x.pop(), f.readline() ...) denote a new value each
+        # time they are evaluated: number the evaluations of one call term
+        if t[0] == 'call' and (f == T.G('next') or (f[0] == 'attr' and f[2] in _IMPURE_METHODS)):
+            self._nth = getattr(self, '_nth', {})
+            self._nth[t] = self._nth.get(t, 0) + 1
+            t = ('nth', self._nth[t], t)
         self._emit('call', n, term=t, f=f, args=tuple(args), kws=tuple(sorted(kws, key=repr)),
                    stmt=stmt)
         if self.versioned and stmt and f[0] == 'attr' and f[2] in _MUTATORS:
@@ -1097,6 +1103,7 @@ def _assigned_in(stmts):
     return out
 
 
+_IMPURE_METHODS = {'pop', 'popitem', 'readline', 'read', 'readlines', 'peek', 'get_nowait', 'recv', 'popleft'}
 _MUTATORS = {'append', 'extend', 'insert', 'update', 'add', 'remove', 'pop', 'clear', 'sort',
              'setdefault', 'popitem', 'discard'}
 
